@@ -815,6 +815,104 @@ def _two_job(args):
         return "HARNESS-ERROR %s: %s" % (type(e).__name__, e)
 
 
+async def _mid_transfer(loop, backend, verb, looks):
+    """session A is in the middle of a transfer of big.bin; session B looks at that file (`looks`: commands); A goes on:
+    what A transfers and what is stored afterwards is the same on every backend"""
+    import asyncio
+
+    import world as W
+
+    big = bytes((i * 11 + 5) % 256 for i in range(4000))
+    wd = W.World(loop, S.USERS_ANON, backend=backend, server_kwargs={"block_size": 64})
+    await wd.start()
+    out = {}
+    try:
+        wd.set_tree(S.TREE + [(("big.bin",), big)])
+        a, b = await wd.raw_client(), await wd.raw_client()
+        for r in (a, b):
+            await W.run_line(wd, r, b"USER bob")
+        await W.run_line(wd, a, b"EPSV")
+        await W.data_connect(wd, a)
+        dr, dw = a.data
+        na = len(a.replies)
+        if verb == "RETR":
+            sp = dw.transport.peer
+            sp.HIGH = 256
+            sp.hold = True
+            a.send_raw(b"RETR big.bin\r\n")
+        else:
+            await W.run_line(wd, a, b"REST 10")
+            na = len(a.replies)
+            a.send_raw(b"STOR big.bin\r\n")
+            await loop.settle()
+            dw.write(b"N" * 500)
+        await loop.settle()
+        out["b"] = []
+        for line in looks:
+            if line.split(" ")[0] in ("LIST", "MLSD"):
+                await W.run_line(wd, b, b"EPSV")
+                await W.data_connect(wd, b)
+            codes, _, data, listing = await W.run_line(wd, b, line.encode())
+            out["b"].append((line, codes))
+        if verb == "RETR":
+            sp.hold = False
+            sp._schedule_pump()
+            got = await asyncio.wait_for(dr.read(), 60)
+            dw.close()
+            out["a_data_ok"] = got == big
+            out["a_len"] = len(got)
+        else:
+            dw.write(b"M" * 700)
+            dw.close()
+            await loop.settle()
+        a.data = None
+        waited = 0.0
+        while waited < 10 and not any(int(c) >= 200 for c, _ in a.replies[na:]) and not a.eof:
+            await asyncio.sleep(0.25)
+            waited += 0.25
+            await loop.settle()
+        out["a_replies"] = [int(c) for c, _ in a.replies[na:]]
+        out["tree"] = wd.tree()
+        a.close()
+        b.close()
+        await loop.settle()
+    finally:
+        try:
+            await wd.stop()
+        except Exception:
+            wd.finish()
+    return out
+
+
+def _mid_job(args):
+    import simnet
+
+    try:
+        return simnet.run(_mid_transfer, *args)
+    except BaseException as e:  # noqa
+        return "HARNESS-ERROR %s: %s" % (type(e).__name__, e)
+
+
+def _mid_transfers(ctx, res):
+    for verb in ("RETR", "STOR"):
+        for looks in (["MLST big.bin"], ["LIST"], ["MLSD"], ["MLST big.bin", "MLST big.bin", "LIST"]):
+            outs = [_mid_job((b, verb, looks)) for b in ("memory", "pathio", "async")]
+            res.cases += 1
+            res.count("two_sessions_mid_transfer")
+            inp = {"level": "ftp-mid-transfer", "transfer": verb, "other_session": looks}
+            if any(isinstance(o, str) for o in outs):
+                res.disagreements.append({"correspondence": "C18 mid-transfer harness", "input": inp, "impl": [o if isinstance(o, str) else "ok" for o in outs]})
+                continue
+            res.distinct.add(("mid", verb, tuple(looks)))
+            m = outs[0]
+            for name, o in zip(("pathio", "async"), outs[1:]):
+                if o != m:
+                    diff = [k for k in m if m[k] != o.get(k)]
+                    res.oracle_failures.append({"input": inp, "what": "another session looked at the file in the middle of a %s: memory and %s differ in %r (memory: %r; %s: %r)" % (
+                        verb, name, diff, {k: m[k] for k in diff if k != "tree"}, name, {k: o.get(k) for k in diff if k != "tree"}), "signature": "C18:two-sessions:backends-differ"})
+                    break
+
+
 def two_session_scripts(ctx):
     firsts = [["RETR f.txt"], ["CWD d"], ["MLST d/g.txt"], ["RETR d/g.txt"], ["CWD d", "MLST g.txt"], ["LIST d"], ["RNFR f.txt"]]
     changes = [["DELE f.txt"], ["DELE d/g.txt"], ["RNFR d", "RNTO e2"], ["RNFR d", "RNTO e2", "MKD d"], ["DELE f.txt", "MKD f.txt"], ["RNFR f.txt", "RNTO d/f.txt"],
@@ -853,6 +951,7 @@ def _two_sessions(ctx):
                 what = ("step %d %r: memory %r, %s %r" % (k, m[0][k][:2], m[0][k][2:], name, other[0][k][2:])) if k is not None else "the trees differ afterwards"
                 res.oracle_failures.append({"input": inp, "what": "two sessions on one tree, the same script: " + what, "signature": "C18:two-sessions:backends-differ"})
                 break
+    _mid_transfers(ctx, res)
     return res
 
 
@@ -914,6 +1013,12 @@ def _replay_two(inp):
 def replay(ctx, doc):
     if doc["failure"]["input"].get("level") == "ftp-two-sessions":
         return _replay_two(doc["failure"]["input"])
+    if doc["failure"]["input"].get("level") == "ftp-mid-transfer":
+        i = doc["failure"]["input"]
+        outs = [_mid_job((b, i["transfer"], i["other_session"])) for b in ("memory", "pathio", "async")]
+        for b, o in zip(("memory", "pathio", "async"), outs):
+            print(b, o if isinstance(o, str) else {k: v for k, v in o.items() if k != "tree"})
+        return any(isinstance(o, str) for o in outs) or outs[0] != outs[1] or outs[0] != outs[2]
     f = doc["failure"]
     i = f["input"]
     if i.get("level") == "api":
